@@ -10,7 +10,7 @@
 (* defective variants (Variant # "ok") must be rejected by TLC.               *)
 EXTENDS NatInt, TLC
 CONSTANT CMax
-CONSTANT Variant      \* "ok" | "trunc_first" (F2) | "halfdown_tie" | "cmp_sign" | "rem_loop"
+CONSTANT Variant      \* "ok" | "trunc_first" (F2) | "halfdown_tie" | "cmp_sign" | "rem_loop" | "div_no_norm" | "gcd_twos"
 S == INSTANCE FpDec WITH ZAdd <- IAdd, ZSub <- ISub, ZMul <- IMul, ZCmp <- ICmp, ZFloorDivMod <- IFloorDivMod, ZLit <- ILit,
        ZNeg <- INeg, ZAbs <- IAbs, ZSign <- ISign, ZIsEven <- IIsEven, ZMod5Is0 <- IMod5Is0, ZPow10 <- IPow10, ZPow2 <- IPow2,
        ZDigits <- IDigits, MaxFrac <- 2, CoeffBits <- 7, CoeffMax <- 127, CoeffMin <- -128, MaxDigits <- 3
@@ -103,6 +103,42 @@ ImplRound(n, mode) ==
   ELSE LET q == DivRoundedKernel(xc, 10^(xf - n), mode) IN
        IF n >= 0 THEN S!Ret(q, n) ELSE IF In8(q * 10^(0 - n)) THEN S!Ret(q * 10^(0 - n), 0) ELSE S!Fail
 RoundRefines == ~Ready \/ \A n \in -3..3, mode \in S!Modes : S!RoundOk(X, n, mode, ImplRound(n, mode))
+
+(* ---- checked_div: checked_div_rounded at the maximal scale, then normalize ---- *)
+RECURSIVE Norm(_,_)
+Norm(c, f) == IF c = 0 THEN <<0, 0>> ELSE IF f > 0 /\ c % 10 = 0 THEN Norm(c \div 10, f - 1) ELSE <<c, f>>
+ImplDiv(mode) ==
+  IF yc = 0 THEN S!Fail ELSE IF xc = 0 THEN S!Ret(0, 0) ELSE IF yc = 10^yf THEN S!Ret(xc, xf)
+  ELSE LET q == CheckedDivRounded(xc, xf, yc, yf, 2, mode) IN
+       IF ~In8(q) THEN S!Fail ELSE LET n == Norm(q, 2) IN IF Variant = "div_no_norm" THEN S!Ret(q, 2) ELSE S!Ret(n[1], n[2])
+DivRefines == ~Ready \/ \A mode \in S!Modes : S!DivOk(X, Y, mode, ImplDiv(mode))
+
+(* ---- quantize: div_rounded(quant, 0) * quant ---- *)
+ImplQuantize(mode) ==
+  IF yc = 0 THEN S!Fail
+  ELSE LET t == ImplDivRounded(0, mode) IN
+       IF t.k # "ret" THEN S!Fail
+       ELSE LET m == LET tx == [c |-> t.c, f |-> t.f] IN          \* Decimal * Decimal of the product rule above, operands (t, Y)
+                     IF t.c = 0 THEN S!Ret(0, 0) ELSE IF yc = 10^yf THEN S!Ret(t.c, t.f) ELSE IF t.c = 1 THEN S!Ret(yc, yf)
+                     ELSE IF In8(t.c * yc) THEN S!Ret(t.c * yc, yf) ELSE S!Fail
+            IN m
+QuantizeRefines == ~Ready \/ \A mode \in S!Modes : S!QuantizeOk(X, Y, mode, ImplQuantize(mode))
+
+(* ---- as_integer_ratio: gcd_special (binary gcd of the coefficient and 10^n, powers of two split off first) ---- *)
+RECURSIVE Tz(_)
+Tz(v) == IF v % 2 = 1 THEN 0 ELSE 1 + Tz(v \div 2)            \* trailing_zeros, v > 0
+RECURSIVE GcdLoop(_,_)
+GcdLoop(u, v) == IF v = 0 THEN u ELSE
+                 LET v1 == v \div 2^Tz(v)
+                     u2 == IF u > v1 THEN v1 ELSE u
+                     v2 == IF u > v1 THEN u ELSE v1
+                 IN GcdLoop(u2, v2 - u2)
+GcdSpecial(numer, e) == LET u0 == Abs(numer)  utz == Tz(u0)  u == u0 \div 2^utz  v == 10^e \div 2^e
+                            tw == IF Variant = "gcd_twos" THEN utz ELSE IF utz < e THEN utz ELSE e
+                        IN GcdLoop(u, v) * 2^tw
+ImplRatio == IF xf = 0 \/ xc = 0 THEN <<xc, 1>>
+             ELSE LET g == GcdSpecial(xc, xf) IN <<TDiv(xc, g), 10^xf \div g>>
+RatioRefines == ImplRatio = S!Ratio(X)
 
 (* ---- tightness of the oracle (non-vacuity): where the transcription returns a value, the predicate must   *)
 (* ---- reject the neighbouring coefficients at the same scale, and the failure signal (unless the value is  *)
